@@ -98,6 +98,44 @@ def proc_line(raw, app='real', alloc=10000, ws='all', flush='ok', read_err=False
 def preq_line(raw, ws='all', flush='ok', read_err=False):
     return f"preq {'e' if read_err else 'd:' + C.hx(raw)} {ws} {flush}"
 
+def run_stateful(argv, lines, nsetup=3):
+    """serve mode keeps state (tree, env) per process.  `lines[:nsetup]` are the set-up lines
+    (tree, env, manifest).  When the process dies on a case (stack overflow, abort) that case is
+    answered `abort <rc>`, a fresh process is started, the set-up lines are replayed and the rest
+    continues; returns (outputs aligned with `lines`, manifest baseline of the LAST process)."""
+    import subprocess, os
+    out = []
+    setup = list(lines[:nsetup])
+    pending = list(lines)
+    replay = False
+    baseline = None
+    guard = 0
+    while pending:
+        feed = (setup + pending) if replay else pending
+        data = ('\n'.join(feed) + '\n').encode()
+        try:
+            p = subprocess.run(argv, input=data, stdout=subprocess.PIPE, stderr=subprocess.DEVNULL, timeout=900)
+            rc, raw = p.returncode, p.stdout
+        except subprocess.TimeoutExpired as ex:
+            rc, raw = 'timeout', (ex.stdout or b'')
+        got = raw.decode('utf-8', 'replace').split('\n')
+        if got and got[-1] == '': got.pop()
+        if argv[0] == C.HARNESS_BIN:
+            got = [g[1:] for g in got if g.startswith('\x01')]
+        if replay:
+            if len(got) >= nsetup: baseline = got[nsetup - 1]
+            got = got[nsetup:] if len(got) >= nsetup else []
+        elif len(got) >= nsetup:
+            baseline = got[nsetup - 1]
+        if len(got) >= len(pending):
+            out.extend(got[:len(pending)]); break
+        out.extend(got); out.append(f'abort {rc}')
+        pending = pending[len(got) + 1:]
+        replay = True
+        guard += 1
+        if guard > 100:
+            out.extend(['abort too-many'] * len(pending)); break
+    return out, baseline
+
 def run_impl(lines, shards=1):
-    """serve mode keeps state (tree, env) per process: a batch must be self-contained"""
-    return C._run_lines([C.HARNESS_BIN, 'serve'], lines)
+    return run_stateful([C.HARNESS_BIN, 'serve'], lines)[0]
